@@ -481,12 +481,12 @@ example : LineNums 0 2 Track.new [.octave { v := 4 }, .octUp] :=
   ⟨trivial, ⟨by decide, by decide⟩, trivial, trivial, trivial⟩
 
 /-- … and so do the numbers at the ends of `int` (no "does not overflow" side condition is left
-since fixes a16b488 / a22a11c): `o-2147483648 < c:2147483647.` -/
+since fixes 299434d / bc95701): `o-2147483648 < c:2147483647.` -/
 example : LineNums 0 2 Track.new
     [.octave { v := -2147483648 }, .octDown, .note 2 .none (.frames { v := 2147483647 } 1)] :=
   ⟨trivial, ⟨by decide, by decide⟩, trivial, trivial, (by decide : 2 < 8), ⟨⟨by decide, by decide⟩, by decide⟩, trivial⟩
 
-/-- the inputs of repository fixes a16b488 / a22a11c as the repaired code reads them (the check
+/-- the inputs of repository fixes 299434d / bc95701 as the repaired code reads them (the check
 replays the same lines on the real code): the dotted frame count narrows to 65534 ticks, `(` of
 `INT_MIN` records `VOL_REL 0`, and the octave arithmetic wraps in 32 bits before the 16-bit event field -/
 example :
